@@ -15,7 +15,10 @@ RULE = ("bridge / converter (AXI-Lite<->Wishbone, AXI-Lite->CSR, AXI-Lite SRAM, 
 ASSUMPTIONS = ["Migen's simulator (site-packages) defines FHDL semantics",
                "operations touching the same word (one of them a write) are serialised by the master agent, so every read has one admissible value",
                "error ranges are aligned on the widest word of the case",
-               "AXILiteUpConverter: one read in flight (known finding axil-up-read-lane for two, excluded by construction, witness replayed)"]
+               "AXILiteUpConverter: one read in flight (known finding axil-up-read-lane for two, excluded by construction, witness replayed)",
+               "AXI4 bridges, AHB2Wishbone and add_adapter chains: see ASSUMPTIONS of checks/c09_full.py (legal AXI4 bursts; the AXI-Lite "
+               "partner of AXI2AXILite has one read in flight and takes the k-th W only after or with the k-th AW; single NONSEQ AHB "
+               "transfers; no error path behind AXILite2Wishbone; recorded classes excluded by construction, witnesses replayed)"]
 
 
 def _m(w):
@@ -264,7 +267,8 @@ def _data_key(case):
 
 
 def subchecks():
+    from checks import c09_full          # AXI4 <-> AXI-Lite / Wishbone bridges, AHB2Wishbone, add_adapter chains
     return [
         Sub("axilite", run_case, strategy=st_case, examples=(2500, 80000), timeout=(900, 20000),
             rule="AXI-Lite bridges, SRAM and converters with independent-channel master and multi-accept slave agents"),
-    ]
+    ] + c09_full.subchecks()
